@@ -16,9 +16,10 @@ RULE = ("symbol arrays of length 1..2e4 (quick) / 1e5 (thorough), 1..4 component
         'sample the five oracle facts of create_complete on the binary64 oracle')
 THEOREM_BACKED = ('rans_roundtrip, table_roundtrip, create_sound (any oracle), raw_roundtrip, tagged_roundtrip, '
                   'symbols_roundtrip (every oracle, scheme, level), symbols_roundtrip_float, create_complete (+ sharpness '
-                  'witness), precision_suffices(_table), symbols_failure_characterised, scheme_choice_irrelevant; '
-                  'source_ransUnclampedPrecision_is_model / source_ransPrecision_is_model / source_msb_is_log2 (the C++ '
-                  "functions, translated from clang's AST on every run, are the model's)")
+                  'witness), precision_suffices(_table), symbols_failure_characterised, scheme_choice_irrelevant; 9 '
+                  'obligations source_*_is_model (rANS precision functions, MostSignificantBit, the size-class branch of '
+                  "EncodeTable, RAnsDecoder::read_init in all four size classes: translated from clang's AST on every run, "
+                  "equal to the model's)")
 EXPLANATION = ("full proof for every oracle instance; the Float instance of the model reproduces the C++ bytes; the "
                "ignored result of RAnsSymbolEncoder::Create is proved to be `true` for every oracle with five explicit "
                "properties (monotone, contractive rescale; estimate exact to +1; est 0 = 0; est T <= P), which the exact "
